@@ -200,15 +200,19 @@ fn case<S: Shape>(spec: &AnimSpec, st: usize, r: &mut Rng, acc: &mut Acc, stream
             // frame when reversing, later components over earlier ones) ...
             if k >= entry && total.map(|t| t.is_finite()).unwrap_or(false) {
                 for f in 0..S::N_ANIM {
-                    let mut want: Option<f64> = None;
+                    // (where the property has several keyframes AT the resting position, which of them "the 100 %
+                    // value" is lies outside the statements — C02 sets keyframe hits on repeated positions aside —
+                    // and any of them is accepted)
+                    let mut want: Vec<f64> = Vec::new();
                     for comp in &spec.states[st] {
                         if comp.defines(f) {
                             let fr = crate::model::frames(comp, f);
-                            want = if comp.reverse { fr.first().map(|x| x.val) } else { fr.last().map(|x| x.val) };
+                            let rest = if comp.reverse { fr.first().map(|x| x.pos) } else { fr.last().map(|x| x.pos) };
+                            want = fr.iter().filter(|x| Some(x.pos) == rest).map(|x| x.val).collect();
                         }
                     }
-                    if let Some(w) = want {
-                        if !crate::model::agrees_exact(S::KINDS[f], real.current_values().get(f), w) {
+                    if let Some(w) = want.last().copied() {
+                        if !want.iter().any(|w| crate::model::agrees_exact(S::KINDS[f], real.current_values().get(f), *w)) {
                             acc.violation(
                                 "c07:terminal-values-by-configuration",
                                 format!("is_ended() became true at op #{k} but field {} is {} where the configured terminal value ({}) is {w}", S::FIELDS[f], real.current_values().get(f), if spec.states[st].iter().any(|c| c.reverse) { "0 % of a reversing component / 100 %" } else { "100 %" }),
